@@ -50,6 +50,17 @@ def run_c14(tier):
     if 'SameStream' not in neg.violated:
         raise vlib.Undecided('negative control (32-bit truncation in Restore) not detected')
     ck.cov['negative_controls'] = 1
+    # reads of EVERY size, behaviours of EVERY length: the position arithmetic of the specification (cipher position = byte counter,
+    # a read of k bytes advances the stream position by exactly k) is an inductive invariant (TLAPS, ChaChaPRGProof.tla)
+    import time
+    t0 = time.time()
+    proved, total, out = vlib.tlapm(SPEC, 'ChaChaPRGProof', timeout=900, name='prgproof')
+    ck.cov['tlaps_proof'] = {'module': 'ChaChaPRGProof', 'theorems': ['InitInv', 'Consecution', 'Safety (Spec => []IndInv)', 'ReadAdvancesByK'],
+                             'obligations_proved': proved, 'obligations': total, 'wall_s': round(time.time() - t0, 1)}
+    if proved >= 0 and proved < total:
+        raise vlib.Undecided('TLAPS: %d of %d obligations of ChaChaPRGProof fail: the proof or the model is wrong\n%s' % (total - proved, total, out[-1500:]))
+    if proved < 0:
+        ck.notes.append('tlapm did not run to completion (supplementary unbounded argument, not a verdict on the code)')
     if len(cases) < 500:
         raise vlib.Undecided('ChaChaPRG enumeration produced %d cases' % len(cases))
     vh = vlib.build_vh()
